@@ -10,14 +10,15 @@
     overlap / containment / distance (line and ring, single- and multi-part, incl. origin-spanning)
     connect on a linear record (exact hull, argument order, idempotence, strand rule)
     offset of a single-part location on a ring (rotation of the same bases, length, strand)
-    extension of a single-part location on a linear record (exactly the bases within the distance)
+    extension of a single-part location on a linear and on a circular record (exactly the bases within the distance)
     the feature ordering is a strict weak order
   Carried by the exhaustive small-scope correspondence + executable set-of-bases spec only
-  (see DESIGN.md): connect on a ring (cover / well-formed / shortest arc), extension on a ring,
-  offset of multi-part locations.
+  (see DESIGN.md): connect on a ring (cover / well-formed / shortest arc), extension and offset of
+  multi-part (incl. origin-spanning) locations.
 -/
 import ASV.Proofs.LocOrder
 import ASV.Proofs.LocString
+import ASV.Proofs.LocExtend
 namespace ASV.C04
 open ASV
 
@@ -133,6 +134,15 @@ theorem extend_line_exact (p : Part) (d mx : Int) (h0 : 0 ≤ p.lo) (h1 : p.lo <
     ∃ r, extendLocation (.simple p) d mx false = .ok r ∧
       ∀ i, r.mem i = true ↔ (0 ≤ i ∧ i < mx ∧ ∃ j, p.mem j = true ∧ iabs (i - j) ≤ d) :=
   ⟨_, extend_simple_line p d mx, extend_simple_line_mem p d mx h0 h1 h2 hd⟩
+
+/-- extending a single-part location on a circular record (distance at most the record length)
+    covers exactly the bases within that distance, measured the shorter way round the ring, and
+    nothing outside the record -/
+theorem extend_ring_exact (p : Part) (d L : Int) (h0 : 0 ≤ p.lo) (h1 : p.lo < p.hi) (h2 : p.hi ≤ L)
+    (hd : 0 ≤ d) (hdL : d ≤ L) :
+    ∃ r, extendLocation (.simple p) d L true = .ok r ∧
+      ∀ i, r.mem i = true ↔ (0 ≤ i ∧ i < L ∧ ∃ j, p.mem j = true ∧ ringAbs L i j ≤ d) :=
+  ⟨_, extend_simple_ring_eq p d L h0 h1 h2 hd hdL, extSimpleRing_mem p d L h0 h1 h2 hd⟩
 
 /-! ### ordering -/
 
